@@ -163,9 +163,10 @@ class ListLits(solvegen.Lits):
 
 
 class ListGen(object):
-    def __init__(self, rnd, randsz=False):
+    def __init__(self, rnd, randsz=False, softs=False):
         self.rnd = rnd
         self.randsz = randsz
+        self.softs = softs        # soft constraints on scalars and on constant-index elements (C05)
 
     def scenario(self):
         rnd = self.rnd
@@ -241,6 +242,27 @@ class ListGen(object):
                 stmts.append(keep(lambda: self.list_stmt(lf)))
         for _ in range(rnd.randint(0, 2)):
             stmts.append(keep(self.scalar_stmt))
+        # elements named by a constant index outside any foreach (fixed-size lists only; such a list is never cleared below):
+        # an element against a literal, a scalar or another element, in both operand orders
+        self.indexed = set()
+        fixed = [lf for lf in lists if not lf["randsz"] and lf["size"] >= 1]
+        if fixed and rnd.random() < (0.9 if self.softs else 0.6):
+            for _ in range(rnd.randint(1, 3)):
+                lf = rnd.choice(fixed)
+                self.indexed.add(lf["name"])
+                stmts.append(keep(lambda: self.elem_stmt(lf, fixed)))
+            rnd.shuffle(stmts)
+        if self.softs:
+            # soft constraints (often conflicting with the hard ones or with each other) on scalars and on indexed elements
+            for _ in range(rnd.randint(1, 3)):
+                if fixed and rnd.random() < 0.4:
+                    lf = rnd.choice(fixed)
+                    self.indexed.add(lf["name"])
+                    target, (w, sg) = ["f", [lf["name"], rnd.randrange(lf["size"])]], (lf["elem"]["w"], lf["elem"]["sg"])
+                else:
+                    f = rnd.choice(self.scalars)
+                    target, (w, sg) = ["f", [f["name"]]], (f["w"], f["sg"])
+                stmts.insert(rnd.randint(0, len(stmts)), ["soft", ["bin", rnd.choice(["Eq", "Eq", "Lt", "Gt", "Ne"]), target, self.lit(w, sg)]])
         cls = {"name": "K0", "fields": fields, "blocks": [{"name": "c0", "stmts": stmts}], "pre_randomize": self.pre, "post_randomize": []}
         ops = [{"op": "new", "var": "o", "cls": "K0"}]
         cur = {lf["name"]: lf["size"] for lf in lists}          # current lengths (the declaration keeps the initial size)
@@ -257,7 +279,7 @@ class ListGen(object):
                 lo, hi = type_range(lf["elem"]["w"], lf["elem"]["sg"])
                 ops.append({"op": "l_append", "var": "o", "path": [lf["name"]], "value": rnd.randint(lo - 2, hi + 2)})
                 cur[lf["name"]] += 1
-            elif r < 0.42 and not lf["randsz"]:
+            elif r < 0.42 and not lf["randsz"] and lf["name"] not in self.indexed:
                 ops.append({"op": "l_clear", "var": "o", "path": [lf["name"]]})
                 cur[lf["name"]] = 0
             elif r < 0.6 and lf["randsz"]:
@@ -274,7 +296,7 @@ class ListGen(object):
             if k == "lit":
                 return e[1]
             if k == "f":
-                return W[e[1][0]]
+                return W[e[1][0]][e[1][1]] if len(e[1]) == 2 else W[e[1][0]]
             if k == "it":
                 return W[lname][i]
             if k == "idxvar":
@@ -334,6 +356,22 @@ class ListGen(object):
         if r < 0.7:
             return ["expr", ["bin", rnd.choice(["Lt", "Le", "Eq", "Gt", "Ge", "Ge"]), ["f", [f["name"]]], ["size", [lf["name"]]]]]
         return ["expr", ["bin", rnd.choice(["Lt", "Ne", "Ge"]), ["f", [f["name"]]], self.lit(f["w"], f["sg"])]]
+
+    def elem_stmt(self, lf, fixed):
+        rnd = self.rnd
+        w, sg = lf["elem"]["w"], lf["elem"]["sg"]
+        el = ["f", [lf["name"], rnd.randrange(lf["size"])]]
+        r = rnd.random()
+        if r < 0.3:
+            other = self.lit(w, sg)
+        elif r < 0.6:
+            other = ["f", [rnd.choice(self.scalars)["name"]]]
+        else:
+            l2 = rnd.choice(fixed)
+            other = ["f", [l2["name"], rnd.randrange(l2["size"])]]
+            self.indexed.add(l2["name"])
+        op = rnd.choice(["Lt", "Le", "Ne", "Gt", "Ge", "Eq"])
+        return ["expr", ["bin", op, el, other]] if rnd.random() < 0.5 else ["expr", ["bin", op, other, el]]
 
     def list_stmt(self, lf):
         rnd = self.rnd
